@@ -1,7 +1,8 @@
 /* C12 (list): one operation from an ARBITRARY well-formed list of up to N elements (duplicates by comparator
  * class allowed) + observation through find/iterate.  Elements are cells of a static array; the optional user
  * comparator compares their class (index / 2), so distinct pointers may compare equal.
- * Symbolic: n, element of every node, op, argument, iterator position/edit, comparator and dtor installed. */
+ * Symbolic: n, element of every node, op, argument, iterator position/edit (incl. two removals at one cursor),
+ * comparator and dtor installed. */
 #include "vf.h"
 #include <structs/list.c>
 
@@ -105,6 +106,7 @@ int vf_main(void) {
         if (it) {
             unsigned char p = nondet_uchar(); VF_ASSUME(p < mlen);
             VF_PICK(edit, 4);                      /* 0 none 1 remove 2 set 3 insert */
+            _Bool twice = nondet_bool();           /* remove: also remove the follower from the same cursor */
             int visited = 0; _Bool done = 0;
             for (int i = 0; i < N + 2; i++) {
                 if (!it) break;
@@ -115,6 +117,15 @@ int vf_main(void) {
                     if (with_dtor) exp_dt[model[p]]++;
                     for (int k = p; k + 1 < N + 2; k++) model[k] = model[k + 1];
                     mlen--; done = 1;
+                    /* the cursor now shows the follower; it may be removed from the same cursor as well, before any
+                     * itr_next (a run of unwanted elements) */
+                    if (twice && p < mlen) {
+                        VF_CHECK(m_list_itr_get_data(it) == EL(model[p]), "after itr_remove the cursor shows the follower");
+                        r = m_list_itr_remove(it); VF_CHECK(r == 0, "second itr_remove at the same cursor returns 0");
+                        if (with_dtor) exp_dt[model[p]]++;
+                        for (int k = p; k + 1 < N + 2; k++) model[k] = model[k + 1];
+                        mlen--;
+                    }
                 } else if (visited == p && !done && edit == 3) {
                     VF_CHECK(d == EL(model[visited]), "iterator yields elements in list order (before insert)");
                     r = m_list_itr_insert(it, EL(NE - 1)); VF_CHECK(r == 0, "itr_insert returns 0");
